@@ -16,7 +16,7 @@ LEVEL_NOTE = ("Stress descent, makeFeasible's priority loop and the VPSC solver 
               "constraint refers to, excuses the whole compound constraint). Page boundaries are soft and have "
               "no hard meaning on the shapes. Three classes of clean-tree violations of the property text are "
               "reported with their own message prefixes: unreported-violation[makeFeasible-only], "
-              "unreported-violation[final-projection], size-rounding.")
+              "unreported-violation[fd-run,over-constrained], hang, exception[cml], size-rounding.")
 TECHNIQUE = "Lean 4 theorems (gen_sound/gen_complete per type, convex_step, checker iff) + exact correspondence of generated constraints + proven checkers on real layout outputs"
 RULE = ("gen-*: random mixes of all 8 compound constraint types (incl. references between constraints, duplicate ids, "
         "zero/negative-zero offsets, zero-weight page boundary, invalid indices), non-trivial = at least one vpsc constraint generated. "
